@@ -249,7 +249,7 @@ REGISTRY = {
                  probes=["estimates", "overuse_updates", "underuse_updates", "abs_send_time_wrapped",
                          "window_restarted_after_idle", "zero_size_packets"]),
     "C18": _hist("stats", RULE_STATS, "number of report blocks per receiver report",
-                 probes=["receiver_reports", "rr_after_sequence_wrap", "sequence_cycle_completed", "getstats_calls"]),
+                 probes=["receiver_reports", "rr_after_sequence_wrap", "sequence_cycle_completed", "getstats_calls", "cumulative_loss_clamped"]),
     "C12": _hist("router", RULE_ROUTER, "(receivers registered, senders registered, latched SSRCs) after every routed packet",
                  probes=["ssrc_latched", "rtp_known_ssrc", "rtp_dropped_ambiguous", "rtp_dropped_unknown",
                          "rtcp_delivered_remb", "rtcp_delivered_sr", "rtcp_delivered_bye"]),
